@@ -457,7 +457,7 @@ def _gen_table(rng, names, used_tables, used_cnames, nc, thorough, family=None):
         elif x < 0.26:
             ix["kw"]["sqlite_where"] = {"text": "qty > 5"}
         # postgresql_ops keyed by a column name / by the label of an expression member
-        keys = [e["label"] for e in elems if e.get("label")] + [e["col"] for e in elems if "col" in e]
+        keys = [e["label"] for e in elems if e.get("label")] + [e["col"] for e in elems if "col" in e] + [e["lwcol"] for e in elems if "lwcol" in e]
         if keys and rng.random() < (0.5 if any(e.get("label") for e in elems) else 0.06):
             ix["kw"]["postgresql_ops"] = {k: rng.choice(["varchar_pattern_ops", "text_pattern_ops", "int4_ops"]) for k in keys[:2]}
         elif x < 0.29:
